@@ -98,12 +98,12 @@ Definition cnt_add (a b : cnt) : cnt :=
 Lemma count_tok_add c d t : count_tok (cnt_add c d) t = cnt_add c (count_tok d t).
 Proof.
   unfold count_tok, cnt_add.
-  destruct (is_char 123 t); [cbn; f_equal; lia|].
-  destruct (is_char 125 t); [cbn; f_equal; lia|].
-  destruct (is_char 91 t); [cbn; f_equal; lia|].
-  destruct (is_char 93 t); [cbn; f_equal; lia|].
-  destruct (is_char 40 t || tokty_eqb (ty t) T_FUNCTION); [cbn; f_equal; lia|].
-  destruct (is_char 41 t); [cbn; f_equal; lia|]. reflexivity.
+  destruct (is_delim 123 t); [cbn; f_equal; lia|].
+  destruct (is_delim 125 t); [cbn; f_equal; lia|].
+  destruct (is_delim 91 t); [cbn; f_equal; lia|].
+  destruct (is_delim 93 t); [cbn; f_equal; lia|].
+  destruct (is_delim 40 t || tokty_eqb (ty t) T_FUNCTION); [cbn; f_equal; lia|].
+  destruct (is_delim 41 t); [cbn; f_equal; lia|]. reflexivity.
 Qed.
 
 Lemma final_cnt_add toks : forall c d, final_cnt (cnt_add c d) toks = cnt_add c (final_cnt d toks).
